@@ -242,62 +242,130 @@ example : Generated.addrTag true false = 0x11 ∧ Generated.addrTag false false 
 
 end Src
 
-/-! ## WHOLE methods regenerated from the source (`Generated/AddrFull.lean`: `Address.to_str`, `is_b64`, `__eq__`, `__hash__`
-re-translated from boc/address.py on every run by harness/translate/addrfull.py)
+/-! ## WHOLE methods regenerated from the source (`Generated/AddrFull.lean`: `Address.__init__`, `is_hex`, `is_b64`, `to_str`, `__eq__`,
+`__hash__` re-translated from boc/address.py on every run by harness/translate/addrfull.py)
 
 `Generated.AddrFull.to_str` is the method body statement by statement (raw form `f'{wc}:{hash.hex()}'`; tag byte, signed
 workchain byte, hash, CRC16, the two base64 alphabets); `is_b64 (addr := text) …` is the body of the `try` of `Address.is_b64` on an
-object whose attributes are given: base64 decode, tag / flag decoding, signed workchain byte, hash slice, CRC comparison; its result
+object whose flags are given: base64 decode, tag / flag decoding, signed workchain byte, hash slice, CRC comparison; its result
 is the tuple `(hash_part, is_bounceable, is_test_only, wc)` left behind, `none` = raises OR returns `False` (both make `Address(text)`
-raise).  Hand models of the built-ins used: `Base64.encode` / `decodeUrlsafe`, `pyStrInt`, `hexChars`; `Model.crc16` is C18's
-regenerated CRC.  `Address.__init__` (isinstance dispatch) and `is_hex` stay hand model (`parse`, `isHex`) + correspondence. -/
+raise).  `is_hex` is the body of its `try` (`split(':')` into exactly two parts, `int(hash, 16)`, `int(wc)`, `bytes.fromhex(hash)`),
+`none` = returns `False`.  `init_str` / `init_tuple` / `init_addr` are `Address.__init__` for a `str` / `(int, bytes)` / `Address`
+argument (the `isinstance` tests resolved by the declared argument type): flags reset, then the dispatch `is_hex`, `is_b64`, raise.
+Result = the attributes `(hash_part, is_bounceable, is_test_only, wc)` of the new object.
+Hand models of the built-ins used by BOTH sides: `Base64.encode` / `decodeUrlsafe`, `pyStrInt`, `hexChars`, `splitColon`, `pyInt`,
+`pyFromHex`; `Model.crc16` is C18's regenerated CRC. -/
 section SrcFull
 open TonVerif.Generated.AddrFull TonVerif.Proofs.SrcAddr
 
 /-- the regenerated methods ARE the hand model: `to_str` for every address and each of the 16 flag combinations (raw and the 8
 friendly variants), `is_b64` for every text on a fresh object, `==` and `__hash__` for every pair. -/
-theorem c13_src_fn_methods (a b : Addr) (uf url bo t : Bool) (s : List Char) (h0 : Bytes) (wc0 : Int) :
+theorem c13_src_fn_methods (a b : Addr) (uf url bo t : Bool) (s : List Char) :
     to_str (is_user_friendly := uf) (is_url_safe := url) (is_bounceable := bo) (is_test_only := t)
       (self_wc := a.wc) (self_hash_part := a.hash) = toStr a uf url bo t ∧
-    is_b64 (addr := s) (self_hash_part := h0) (self_is_bounceable := false) (self_is_test_only := false) (self_wc := wc0) =
+    is_b64 (addr := s) (self_is_bounceable := false) (self_is_test_only := false) =
       ((isB64 s).map fun x => (x.hash, x.bounceable, x.testOnly, x.wc)) ∧
     Generated.AddrFull.eq (self_wc := a.wc) (self_hash_part := a.hash) (other := b) = some (Address.eq a b) ∧
     Generated.AddrFull.hash (self_wc := a.wc) (self_hash_part := a.hash) = some (pyHash a) :=
-  ⟨src_to_str_eq a uf url bo t, src_is_b64_eq s h0 wc0, src_eq_eq a b, src_hash_eq a⟩
+  ⟨src_to_str_eq a uf url bo t, src_is_b64_eq s, src_eq_eq a b, src_hash_eq a⟩
+
+/-- the regenerated CONSTRUCTOR is the hand model: `Address(text)` = `parse` for EVERY text (same decision to raise, same workchain,
+hash and flags), its first stage `is_hex` = `isHex`; `Address((wc, hash))` = `ofTuple`, `Address(address)` = `ofAddr` (flags dropped). -/
+theorem c13_src_fn_init (s : List Char) (a : Addr) (wc : Int) (h : Bytes) :
+    init_str (address := s) = ((parse s).map fun x => (x.hash, x.bounceable, x.testOnly, x.wc)) ∧
+    is_hex (addr := s) = ((isHex s).map fun x => (x.hash, x.wc)) ∧
+    init_tuple (address := (wc, h)) = some ((ofTuple wc h).hash, (ofTuple wc h).bounceable, (ofTuple wc h).testOnly, (ofTuple wc h).wc) ∧
+    init_addr (address := a) = some ((ofAddr a).hash, (ofAddr a).bounceable, (ofAddr a).testOnly, (ofAddr a).wc) :=
+  ⟨src_init_str_eq s, src_is_hex_eq s, (src_init_tuple_eq wc h).1, (src_init_addr_eq a).1⟩
 
 /-- FRIENDLY ROUND TRIP for the regenerated code: for every workchain in -128..127, every 32-byte hash and each of the 8 variants
-the regenerated `to_str` returns a 48-character text on which the regenerated `is_b64` (fresh object, whatever its previous
-workchain / hash) leaves exactly this workchain, this hash and the requested flags. -/
+the regenerated `to_str` returns a 48-character text on which the regenerated constructor `Address(text)` (`init_str`: `is_hex`
+declines, `is_b64` accepts) builds exactly this workchain, this hash and the requested flags. -/
 theorem c13_src_friendly_roundtrip (a : Addr) (hw : Bytes.WF a.hash) (hlen : a.hash.length = 32)
-    (hwc : -128 ≤ a.wc ∧ a.wc ≤ 127) (url b t : Bool) (h0 : Bytes) (wc0 : Int) :
+    (hwc : -128 ≤ a.wc ∧ a.wc ≤ 127) (url b t : Bool) :
     ∃ s, to_str (is_user_friendly := true) (is_url_safe := url) (is_bounceable := b) (is_test_only := t)
         (self_wc := a.wc) (self_hash_part := a.hash) = some s ∧ s.length = 48 ∧
-      is_b64 (addr := s) (self_hash_part := h0) (self_is_bounceable := false) (self_is_test_only := false) (self_wc := wc0) =
-        some (a.hash, b, t, a.wc) := by
-  obtain ⟨s, hs, hl, _⟩ := c13_friendly_roundtrip a hw hlen hwc url b t
-  refine ⟨s, by rw [src_to_str_eq]; exact hs, hl, ?_⟩
-  rw [toStr_friendly a url b t hw hwc] at hs
-  injection hs with hs
-  subst hs
-  rw [src_is_b64_eq, isB64_friendly a url b t hw hlen hwc]
+      init_str (address := s) = some (a.hash, b, t, a.wc) ∧ is_hex (addr := s) = none ∧
+      is_b64 (addr := s) (self_is_bounceable := false) (self_is_test_only := false) = some (a.hash, b, t, a.wc) := by
+  obtain ⟨s, hs, hl, hp⟩ := c13_friendly_roundtrip a hw hlen hwc url b t
+  refine ⟨s, by rw [src_to_str_eq]; exact hs, hl, by rw [src_init_str_eq, hp]; rfl, ?_, ?_⟩
+  · rw [src_is_hex_eq]
+    cases hh : isHex s with
+    | none => rfl
+    | some x =>
+      exfalso
+      obtain ⟨f1, f2⟩ := isHex_flags s x hh
+      rw [toStr_friendly a url b t hw hwc] at hs
+      injection hs with hs
+      subst hs
+      have hl3 : (bodyOf a b t ++ be16N (crcV (bodyOf a b t))).length % 3 = 0 := by simp [bodyOf, be16N, hlen]
+      rw [encode_eq_map_sextets _ _ hl3, isHex_no_colon _ (map_encChar_no_colon url _
+        (sextets_lt _ (codeword_wf _ (bodyOf_wf a b t hw))))] at hh
+      cases hh
+  · rw [toStr_friendly a url b t hw hwc] at hs
+    injection hs with hs
+    subst hs
+    rw [src_is_b64_eq, isB64_friendly a url b t hw hlen hwc]
+    rfl
+
+/-- RAW ROUND TRIP for the regenerated code: whenever the regenerated `to_str(is_user_friendly=False)` returns a text (any integer
+workchain whose `str()` exists, any non-empty hash - in particular every 32-byte account id), the regenerated constructor
+`Address(text)` builds the same workchain and hash with both flags false (it is `is_hex` that accepts). -/
+theorem c13_src_raw_roundtrip (a : Addr) (hw : Bytes.WF a.hash) (hne : a.hash ≠ []) (url b t : Bool) (s : List Char)
+    (hs : to_str (is_user_friendly := false) (is_url_safe := url) (is_bounceable := b) (is_test_only := t)
+      (self_wc := a.wc) (self_hash_part := a.hash) = some s) :
+    init_str (address := s) = some (a.hash, false, false, a.wc) := by
+  rw [src_to_str_eq] at hs
+  rw [src_init_str_eq, c13_raw_roundtrip a hw hne url b t s hs]
   rfl
 
+/-- the regenerated raw text exists for every workchain of at most 4300 decimal digits (so the hypothesis of
+`c13_src_raw_roundtrip` is met by every address the library can print). -/
+theorem c13_src_raw_exists (a : Addr) (h : a.wc.natAbs < 10 ^ (4299 + 1)) (url b t : Bool) :
+    (to_str (is_user_friendly := false) (is_url_safe := url) (is_bounceable := b) (is_test_only := t)
+      (self_wc := a.wc) (self_hash_part := a.hash)).isSome = true := by
+  rw [src_to_str_eq]
+  exact c13_raw_exists a h url b t
+
 /-- SUBSTITUTION REJECTED for the regenerated code: any friendly text the regenerated `to_str` produces, with the character at
-any position `i < 48` replaced by another character of the same alphabet, makes the regenerated `is_b64` fail (raise or return
-`False`) — the CRC16 comparison of the source is what rejects it. -/
+any position `i < 48` replaced by another character of the same alphabet, makes the regenerated constructor `Address(text)` raise:
+`is_hex` declines it and `is_b64` fails (raise or `False`) — the CRC16 comparison of the source is what rejects it. -/
 theorem c13_src_substitution_rejected (a : Addr) (hw : Bytes.WF a.hash) (hlen : a.hash.length = 32)
     (url b t : Bool) (s : List Char)
     (hs : to_str (is_user_friendly := true) (is_url_safe := url) (is_bounceable := b) (is_test_only := t)
       (self_wc := a.wc) (self_hash_part := a.hash) = some s)
-    (i : Nat) (hi : i < 48) (c' : Char) (hc : c' ∈ alphabet url) (hne : s[i]? ≠ some c') (h0 : Bytes) (wc0 : Int) :
-    is_b64 (addr := s.set i c') (self_hash_part := h0) (self_is_bounceable := false) (self_is_test_only := false) (self_wc := wc0) = none := by
+    (i : Nat) (hi : i < 48) (c' : Char) (hc : c' ∈ alphabet url) (hne : s[i]? ≠ some c') :
+    init_str (address := s.set i c') = none ∧
+    is_b64 (addr := s.set i c') (self_is_bounceable := false) (self_is_test_only := false) = none := by
   rw [src_to_str_eq] at hs
   have hp := c13_substitution_rejected a hw hlen url b t s hs i hi c' hc hne
+  refine ⟨by rw [src_init_str_eq, hp]; rfl, ?_⟩
   rw [src_is_b64_eq]
   unfold parse at hp
   cases hh : isHex (s.set i c') with
   | none => rw [hh] at hp; simp only at hp; rw [hp]; rfl
   | some x => rw [hh] at hp; cases hp
+
+/-- RE-RENDERING for the regenerated code.  Parse any of the 8 friendly texts of an address with the regenerated constructor; the
+object it builds carries the parsed flags `b₁, t₁`; render that object's workchain and hash with the regenerated `to_str` in ANY of
+the 8 variants (the regenerated `to_str` has no parameter for the object's own flags: they cannot leak into the text): the text is
+the one the tuple-built address `Address((wc, hash))` gives, and the regenerated constructor reads back exactly the flags requested
+the second time. -/
+theorem c13_src_rerender (a : Addr) (hw : Bytes.WF a.hash) (hlen : a.hash.length = 32)
+    (hwc : -128 ≤ a.wc ∧ a.wc ≤ 127) (url₁ b₁ t₁ url₂ b₂ t₂ : Bool) :
+    ∃ s₁ h₁ wc₁ s₂ h₀ f₁ f₂ wc₀,
+      to_str (is_user_friendly := true) (is_url_safe := url₁) (is_bounceable := b₁) (is_test_only := t₁)
+        (self_wc := a.wc) (self_hash_part := a.hash) = some s₁ ∧
+      init_str (address := s₁) = some (h₁, b₁, t₁, wc₁) ∧
+      to_str (is_user_friendly := true) (is_url_safe := url₂) (is_bounceable := b₂) (is_test_only := t₂)
+        (self_wc := wc₁) (self_hash_part := h₁) = some s₂ ∧
+      init_tuple (address := (a.wc, a.hash)) = some (h₀, f₁, f₂, wc₀) ∧
+      to_str (is_user_friendly := true) (is_url_safe := url₂) (is_bounceable := b₂) (is_test_only := t₂)
+        (self_wc := wc₀) (self_hash_part := h₀) = some s₂ ∧
+      init_str (address := s₂) = some (a.hash, b₂, t₂, a.wc) := by
+  obtain ⟨s₁, h₁, _, hp₁, _⟩ := c13_src_friendly_roundtrip a hw hlen hwc url₁ b₁ t₁
+  obtain ⟨s₂, h₂, _, hp₂, _⟩ := c13_src_friendly_roundtrip a hw hlen hwc url₂ b₂ t₂
+  exact ⟨s₁, a.hash, a.wc, s₂, a.hash, false, false, a.wc, h₁, hp₁, h₂, (src_init_tuple_eq a.wc a.hash).1, h₂, hp₂⟩
 
 /-- equal addresses have equal hashes, for the regenerated `==` / `__hash__`. -/
 theorem c13_src_eq_hash (a b : Addr)
@@ -307,17 +375,29 @@ theorem c13_src_eq_hash (a b : Addr)
   rw [src_eq_eq] at h
   rw [src_hash_eq, src_hash_eq, c13_eq_hash a b (by simpa using h)]
 
-/-- non-vacuity: the regenerated methods evaluated on the sample address: its bounceable url-safe text, the text parsed back, one
-substituted character rejected, the raw form. -/
+/-- the copies built by the regenerated constructor (`Address(address)`, `Address((wc, hash))`) are `==` the original under the
+regenerated `__eq__` (the flags are not compared, and not copied). -/
+theorem c13_src_copy_eq (a : Addr) :
+    (∃ h f₁ f₂ wc, init_addr (address := a) = some (h, f₁, f₂, wc) ∧
+      Generated.AddrFull.eq (self_wc := wc) (self_hash_part := h) (other := a) = some true) ∧
+    (∃ h f₁ f₂ wc, init_tuple (address := (a.wc, a.hash)) = some (h, f₁, f₂, wc) ∧
+      Generated.AddrFull.eq (self_wc := wc) (self_hash_part := h) (other := a) = some true) := by
+  refine ⟨⟨_, _, _, _, (src_init_addr_eq a).1, ?_⟩, ⟨_, _, _, _, (src_init_tuple_eq a.wc a.hash).1, ?_⟩⟩ <;>
+    simp [Generated.AddrFull.eq]
+
+/-- non-vacuity: the regenerated methods evaluated on the sample address: its bounceable url-safe text, the text parsed back by the
+regenerated constructor, one substituted character rejected, the raw form and its parse, a lenient raw text. -/
 example : to_str (is_user_friendly := true) (is_url_safe := true) (is_bounceable := true) (is_test_only := false)
       (self_wc := sample.wc) (self_hash_part := sample.hash) = some "Ef9VVVVVVVVVVVVVVVVVVVVVVVVVVVVVVVVVVVVVVVVVVbxn".toList ∧
-    is_b64 (addr := "Ef9VVVVVVVVVVVVVVVVVVVVVVVVVVVVVVVVVVVVVVVVVVbxn".toList) (self_hash_part := []) (self_is_bounceable := false)
-      (self_is_test_only := false) (self_wc := 7) = some (List.replicate 32 0x55, true, false, -1) ∧
-    is_b64 (addr := "Ef9VVVVVVVVVVVVVVVVVVVVVVVVVVVVVVVVVVVVVVVVVVbxn".toList.set 10 'W') (self_hash_part := []) (self_is_bounceable := false)
-      (self_is_test_only := false) (self_wc := 7) = none ∧
+    init_str (address := "Ef9VVVVVVVVVVVVVVVVVVVVVVVVVVVVVVVVVVVVVVVVVVbxn".toList) = some (List.replicate 32 0x55, true, false, -1) ∧
+    init_str (address := "Ef9VVVVVVVVVVVVVVVVVVVVVVVVVVVVVVVVVVVVVVVVVVbxn".toList.set 10 'W') = none ∧
     to_str (is_user_friendly := false) (is_url_safe := true) (is_bounceable := true) (is_test_only := false)
       (self_wc := sample.wc) (self_hash_part := sample.hash) =
-      some "-1:5555555555555555555555555555555555555555555555555555555555555555".toList := by
+      some "-1:5555555555555555555555555555555555555555555555555555555555555555".toList ∧
+    init_str (address := "-1:5555555555555555555555555555555555555555555555555555555555555555".toList) =
+      some (List.replicate 32 0x55, false, false, -1) ∧
+    init_str (address := " +0_1 : 0aFF ".toList) = some ([0x0a, 0xff], false, false, 1) ∧
+    is_hex (addr := "0:0:0".toList) = none ∧ init_str (address := "".toList) = none := by
   decide +kernel
 
 end SrcFull
